@@ -8,6 +8,11 @@ import itertools, random
 OPERANDS = ["a", "'lit'", "42", "f()", "o.p", "o[k]", "(a)", "('x' + 'y')", "'x' + 'y'", "[a, b]", "[[x, y], z]",
             "undefined", "null", "a + b", "`t${a}`", "a?.b", "this", "(a, b)", "o.m(a)", "a.trim()", "i++",
             "`plain`", "/re/", "x = y", "(() => a)", "!a", "a ? b : 'c'", "new F(a)", "o?.[k]", "f?.()",
+            # one of every remaining expression kind
+            "++x", "x--", "a && b", "a || b", "a ?? b", "x &&= y", "x ??= y", "x -= 1", "a * b", "a ** b", "k in o", "a instanceof F", "-a", "~a", "void 0",
+            "delete o.p", "typeof a", "function () { return a; }", "class {}", "({ ...o })", "({ k: a })", "({ [k]: a, m() { return b; } })", "[...r]", "[, a]",
+            "new F", "o.p.q", "o?.p.q", "o?.[k]?.(a)", "tag`t${a}`", "import('m')", "new.target", "0x10", ".5", "true", "`a${b}c`", "/re/g", "a, b".replace(", ", " , ") and "(a , b)",
+            "a < b", "a == b", "a === 'x'", "a - b", "a % b", "a | b", "a >>> 1", "!(a + b)", "(a + b) * 2", "a + b - c", "x = a + b", "[a + b]", "({ k: a + b }).k",
             # identifiers and literals that end in a multi-byte character (the last byte of the operation is not a character boundary)
             "\u00e9", "x\u4727", "o.\u00e9", "'\u00e9'", "f\u00e9()", "`t${\u00e9}`", "1n", "/re/\u0075"]
 ARG_LISTS = ["", "a", "'lit'", "a, b", "f(), b", "...r", "a, ...r", "...r, ...q", "[a, b]", "[[x, y], z]", "a, , b".replace(", ,", ", undefined,"),
